@@ -39,6 +39,8 @@ def mk_candles(stream, base, a, b, form="candle"):
             out.append(Candle(open=o, high=h, low=l, close=c, volume=v, timestamp=t))
         elif form == "dict":
             out.append({"open": o, "high": h, "low": l, "close": c, "volume": v, "timestamp": t})
+        elif form == "dict_cap":     # capitalised keys, as data frames export them
+            out.append({"Open": o, "High": h, "Low": l, "Close": c, "Volume": v, "Timestamp": t})
         elif form == "dict_iso":     # timestamps as ISO strings without offset (JSON input)
             out.append({"open": o, "high": h, "low": l, "close": c, "volume": v,
                         "timestamp": t.isoformat() if t is not None else None})
@@ -62,9 +64,9 @@ def flat_args(data, base):
         if isinstance(it, dict):
             out.append(len(it))
             for k in ("open", "high", "low", "close", "volume"):
-                n, d, _ = frac(it.get(k, 0))
+                n, d, _ = frac(it.get(k, it.get(k.capitalize(), 0)))
                 out += [n, d]
-            tsv = it.get("timestamp")
+            tsv = it.get("timestamp", it.get("Timestamp"))
             if isinstance(tsv, str):
                 from datetime import datetime as _dt
 
